@@ -26,7 +26,7 @@ Theorem closed_is_absorbing_calls : forall s ev s' o, shut s -> data_event ev ->
   shut s' /\ wire s' = wire s /\
   match ev with
   | URead _ _ => exists d, o = ORet d /\ d ++ rbuf s' = rbuf s /\ sess s' = sess s
-  | UWrite _ => o = OExc XClosed /\ sess s' = (if ign s then sess s else option_map (fun _ => false) (sess s))
+  | UWrite _ => o = OExc XClosed /\ s' = s
   | UClose => o = ODone /\ s' = s
   | _ => sess s' = sess s
   end.
@@ -34,33 +34,31 @@ Proof. exact step_shut. Qed.
 
 (* orderly close: close_notify is the next message and the reader wants more than is buffered.
    The read returns the buffered bytes (no exception), answers close_notify, the session keeps
-   its flag; afterwards, for EVERY continuation without write/handshake, reads return only what
-   was buffered (empty once it is drained), nothing goes on the wire, the session flag is
-   unchanged, and a write raises the closed-connection error.
-   _partial: the full statement (session unchanged for every continuation of data calls,
-   writes included) is false -- see after_close_notify_refuted. *)
-Theorem after_close_notify_partial : forall s l rest mx mn,
+   its flag; afterwards, for EVERY continuation of data calls and transport events (reads, WRITES,
+   closes, makefile, flag changes, incoming messages, EOF/reset/send failures -- everything but a
+   new handshake): the connection stays closed, nothing goes on the wire, the session flag is
+   unchanged, reads return only what was buffered (empty once it is drained), writes raise the
+   closed-connection error.
+   (Before /repo 8b57b65 this held only for continuations without writes --
+   after_close_notify_partial -- and after_close_notify_refuted : ~ after_close_notify_full had the
+   witness [close_notify; read; write] => session.resumable = False.) *)
+Theorem after_close_notify : forall s l rest mx mn,
   closed s = false -> hs s = false -> wq s = [] -> bufw s = false -> inq s = IAlert l 0 :: rest ->
   (zlen (rbuf s) <? mn) || is_nil (rbuf s) = true ->
   exists s1, step s (URead mx mn) = (s1, ORet (firstn (take_n mx (rbuf s)) (rbuf s))) /\
     closed s1 = true /\ sess s1 = sess s /\
     (sock_open s = true -> txf s = None -> wire s1 = wire s ++ [WAlert 1 0]) /\
-    forall evs s2 os, Forall no_write evs -> run s1 evs = (s2, os) ->
+    forall evs s2 os, Forall data_event evs -> run s1 evs = (s2, os) ->
       closed s2 = true /\ sess s2 = sess s /\ wire s2 = wire s1 /\
-      Forall (fun o => (exists d, o = ORet d) \/ o = ODone \/ o = OStep \/ o = ONone) os /\
-      (rbuf s1 = [] -> Forall (fun o => forall d, o = ORet d -> d = []) os) /\
-      forall d, exists s3, step s2 (UWrite d) = (s3, OExc XClosed) /\ closed s3 = true.
+      Forall (fun o => (exists d, o = ORet d) \/ o = OExc XClosed \/ o = ODone \/ o = OStep \/ o = ONone) os /\
+      (rbuf s1 = [] -> Forall (fun o => forall d, o = ORet d -> d = []) os).
 Proof. exact after_close_notify_lemma. Qed.
 
-Theorem after_close_notify_refuted : ~ after_close_notify_full.
-Proof. exact after_close_notify_not_full. Qed.
-
-(* the witness as a history: close_notify arrives, the read returns empty, the write raises
-   the closed-connection error -- and session.resumable is off *)
-Theorem after_close_notify_refuted_history :
+(* the history that used to refute it: now the session stays resumable *)
+Theorem after_close_notify_history :
   let '(s', os) := run est0 [NIn (IAlert 1 0); URead None 1; UWrite [119]] in
-  os = [ONone; ORet []; OExc XClosed] /\ closed s' = true /\ sess s' = Some false.
-Proof. exact write_after_close_witness. Qed.
+  os = [ONone; ORet []; OExc XClosed] /\ closed s' = true /\ sess s' = Some true.
+Proof. exact write_after_close_history. Qed.
 
 (* truncation is never reported as end of data: the transport ends without close_notify while
    the reader still wants data => TLSAbruptCloseError, closed, session not resumable; only with
@@ -118,9 +116,24 @@ Theorem fault_in_handshake_flush : forall s e w q, hs s = true -> wq s = w :: q 
   exists s', step s (UHs HFlushOff) = (s', OExc (XSock e)) /\ contained s s' (OExc (XSock e)).
 Proof. exact hs_flush_fault. Qed.
 
-(* sending a handshake-type record fails: every case, including the one in which the fault is
-   swallowed (third branch: a non-alert record is waiting) *)
-Theorem transport_fault_contained_partial : forall s e,
+(* FULL statement for send steps: the transport is dead (sends fail for good, the receive side
+   has ended); whatever record type is being sent and whatever had arrived before, the call
+   raises, the handshake is over, the connection closed, the session not resumable; the exception
+   is the abrupt-close / socket error, or the peer's alert when one was waiting.
+   (Before /repo 0ab9df1 the case "a non-alert record is waiting" returned OStep and the
+   handshake went on: transport_fault_contained_partial / transport_fault_contained_refuted.) *)
+Theorem transport_fault_contained : forall s e ct,
+  hs s = true -> wq s = [] -> bufw s = false -> tx_dead s e -> rxe s <> RxOpen ->
+  exists s' o, step s (UHs (HSend ct)) = (s', o) /\ hs s' = false /\ closed s' = true /\
+    sess s' = option_map (fun _ => false) (sess s) /\
+    ((exists x, o = OExc x /\ fault_exn x) \/
+     (exists l d rest, ct = 22 /\ inq s = IAlert l d :: rest /\ o = OExc (XRemote d))).
+Proof. exact hs_send_contained. Qed.
+
+(* the five sub-cases of a failed handshake-record send one by one, including the half-open
+   transport (only the send direction dead, nothing arrived): there the code waits for the
+   peer's next record, which may be the alert explaining the failure *)
+Theorem transport_fault_contained_cases : forall s e,
   hs s = true -> wq s = [] -> bufw s = false -> tx_dead s e ->
   match inq s with
   | [] => match rxe s with
@@ -131,22 +144,16 @@ Theorem transport_fault_contained_partial : forall s e,
       exists s', step s (UHs (HSend 22)) = (s', OExc (XRemote d)) /\ hs s' = false /\
                  (closed s' = true) /\ sess s' = option_map (fun _ => false) (sess s)
   | _ :: _ =>
-      exists s', step s (UHs (HSend 22)) = (s', OStep) /\ hs s' = true /\ closed s' = true /\
-                 sess s' = option_map (fun _ => false) (sess s)
+      exists s', step s (UHs (HSend 22)) = (s', OExc (XSock e)) /\ contained s s' (OExc (XSock e))
   end.
 Proof. exact hs_send22_fault. Qed.
 
-Theorem transport_fault_contained_refuted : ~ transport_fault_contained_full.
-Proof. exact transport_fault_contained_not_full. Qed.
-
-(* the witness as a history: the transport dies, the NewSessionTicket record cannot be sent,
-   a data record of the peer is waiting -- the handshake call returns normally, closed is False
-   although the socket has been closed *)
-Theorem transport_fault_contained_refuted_history :
+(* the history that used to end in "handshake complete" on a closed socket *)
+Theorem transport_fault_contained_history :
   let '(s', os) := run (init false true true false 16384) swallow_script in
-  os = [OStep; ONone; OStep; OStep; ONone; OStep; OStep; ONone; ONone; ONone; OStep; OHsDone] /\
-  closed s' = false /\ sock_open s' = false /\ sess s' = Some false /\ inq s' = [].
-Proof. exact swallow_witness. Qed.
+  os = [OStep; ONone; OStep; OStep; ONone; OStep; OStep; ONone; ONone; ONone; OExc (XSock 32); ONone] /\
+  closed s' = true /\ hs s' = false /\ sock_open s' = false /\ sess s' = Some false.
+Proof. exact swallow_script_contained. Qed.
 
 (* once a handshake call has ended (in particular: raised), no completion is reported by any
    later event until a new handshake is started *)
